@@ -96,7 +96,7 @@ func (e *Engine) info(fn *ssa.Function) *fnInfo {
 			fi.user = true
 		}
 	}
-	fi.short = strings.TrimPrefix(fi.name, repoMod)
+	fi.short = canonFunc(fi.name)
 	e.finfo[fn] = fi
 	return fi
 }
@@ -1427,4 +1427,11 @@ func (e *Engine) valEq(x, y Value, t types.Type) *Term {
 		return e.valEq(a.v, c.v, a.t)
 	}
 	panic(unsupported(fmt.Sprintf("== on %T", x)))
+}
+
+// canonFunc gives one spelling to ssa and runtime function names: ion.reader.IntValue
+func canonFunc(n string) string {
+	n = strings.ReplaceAll(n, repoMod, "")
+	n = strings.NewReplacer("(", "", ")", "", "*", "").Replace(n)
+	return n
 }
